@@ -80,7 +80,7 @@ func classes(st sqlgen.Stmt) (bool, string, []string) {
 
 func TestTreeIsPrescribed(t *testing.T) {
 	hx.Rule("tree_is_prescribed", "G-SQL statements (model tree drawn first, text rendered with required and random redundant parentheses and random keyword case); gosqlx.Parse must accept and the tree must dump equal to the model tree; non-trivial = needs a precedence parenthesis, or has a nested query, or mixes arithmetic with AND/OR, or uses >= 6 grammar features; distinct = statement kind + feature set + shape hash")
-	treeCheck.Rapid(t, hx.N(6000, 400000), func(rt *rapid.T) TreeCase {
+	treeCheck.Rapid(t, hx.N(120000, 1200000), func(rt *rapid.T) TreeCase {
 		g := sqlgen.New(rt, features())
 		st := sqlgen.Statement(g)
 		sql := sqlgen.SQL(st.Toks)
